@@ -23,12 +23,29 @@ func Calc(ctx context.Context, proc *query.Processor, expr string) error {
 		e.Message = "syntax error"
 		return query.NewSyntaxError(e)
 	}
-	selectEntity, _ := program[0].(parser.SelectQuery).SelectEntity.(parser.SelectEntity)
+
+	// The argument must be a list of expressions: a text that turns the query into
+	// several statements, a set operation or a query without the FROM clause
+	// ("1; SELECT 2", "1 UNION SELECT 2", "1 --") is a syntax error.
+	var selectEntity parser.SelectEntity
+	var fromClause parser.FromClause
+	isExpressionList := false
+	if len(program) == 1 {
+		if selectQuery, ok := program[0].(parser.SelectQuery); ok {
+			if selectEntity, ok = selectQuery.SelectEntity.(parser.SelectEntity); ok {
+				fromClause, isExpressionList = selectEntity.FromClause.(parser.FromClause)
+			}
+		}
+	}
+	if !isExpressionList {
+		e := parser.NewSyntaxError("syntax error", parser.Token{}).(*parser.SyntaxError)
+		return query.NewSyntaxError(e)
+	}
 
 	scope := query.NewReferenceScope(proc.Tx)
 	queryScope := scope.CreateNode()
 
-	view, err := query.LoadView(ctx, queryScope, selectEntity.FromClause.(parser.FromClause).Tables, false, false)
+	view, err := query.LoadView(ctx, queryScope, fromClause.Tables, false, false)
 	if err != nil {
 		if appErr, ok := err.(query.Error); ok {
 			err = errors.New(appErr.Message())
